@@ -178,7 +178,10 @@ def gen_hist(rng, tier, flavour):
     def ref():
         c = rng.random()
         if issued and c < 0.62:
-            return {"ref": rng.choice(issued)}
+            r = {"ref": rng.choice(issued)}
+            if rng.random() < 0.45:
+                r["alias"] = True  # hand the very object the store returned back in (no copy)
+            return r
         if issued and c < 0.8:
             f = rng.choice(["spq", "fmt", "nq", "spid"])
             v = {"spq": rng.choice(SPS), "fmt": rng.choice(fmts + [None]), "nq": rng.choice(NQS), "spid": rng.choice(["sp-id-1", None, ""])}[f]
@@ -248,8 +251,8 @@ def gen_hist(rng, tier, flavour):
                 removed.append(op["ref"])
         else:
             op = {"k": k, "u": u}
-        if k in ISSUE:
-            issued.append(len(ops))
+        if k in ISSUE or k in ("manage", "find_nameid"):
+            issued.append(len(ops))  # steps whose answer can be presented again later
         ops.append(op)
     return {"op": "hist", "consts": K, "cfg": cfg, "users": users, "ops": ops, "flavour": flavour}
 
@@ -265,6 +268,28 @@ def scenario_reorder(rng):
            {"k": "persistent", "u": u, "spq": sp, "nq": nq, "rnd": [7, 8, 9]}]
     return {"op": "hist", "consts": K, "cfg": {"domain": "example.com", "name_qualifier": ""}, "users": [u], "ops": ops,
             "flavour": "mixed"}
+
+
+def scenario_alias_cycle(rng):
+    """issue -> look up -> NewID with the looked-up object -> look up -> Terminate with that object -> look up
+    and list: the store is back at its earlier content, every answer must be what is stored now."""
+    K = _consts()
+    u, v = rng.sample(USERS, 2)
+    sp, sp2, nq = rng.choice(SPS), rng.choice(SPS), rng.choice(NQS)
+    alias = rng.random() < 0.8
+    ops = [{"k": "persistent", "u": u, "spq": sp, "nq": nq, "rnd": [1, 2, 3]},
+           {"k": "persistent", "u": v, "spq": sp, "nq": nq, "rnd": [4, 5, 6]},
+           {"k": "persistent", "u": u, "spq": sp, "nq": nq, "rnd": [7, 8, 9]},
+           {"k": "manage", "m": "new_id", "new_text": rng.choice(["sp-id-1", "sp id,2=x"]), "ref": 2, "alias": alias},
+           {"k": rng.choice(["persistent", "find_nameid"]), "u": u, "spq": sp, "nq": nq, "rnd": [10, 11, 12], "flt": [[1, sp]]},
+           {"k": "manage", "m": rng.choice(["terminate", "terminate", "new_id"]), "new_text": None, "ref": 4, "alias": alias},
+           {"k": "persistent", "u": u, "spq": sp, "nq": nq, "rnd": [13, 14, 15]},
+           {"k": "find_nameid", "u": u, "flt": [[1, sp]]},
+           {"k": "mapping", "ref": 6, "alias": alias, "pol": {"fmt": K["persistent"], "spq": sp, "allow_create": "false"}, "rnd": [16, 17, 18]},
+           {"k": "persistent", "u": v, "spq": sp, "nq": nq, "rnd": [19, 20, 21]},
+           {"k": "persistent", "u": u, "spq": sp2, "nq": nq, "rnd": [22, 23, 24]}]
+    return {"op": "hist", "consts": K, "cfg": {"domain": "example.com", "name_qualifier": ""}, "users": [u, v], "ops": ops,
+            "flavour": "pt"}
 
 
 EPT_SP = ["a", "a__b", "sp__", "__", "https://sp.example/__x", "sp 1", "a_", "_b", "https://sp1.example/sp", "a__b__c", ""]
@@ -315,6 +340,8 @@ def gen_cases(rng, tier):
         yield gen_eptid(rng, collide=True)
     for _ in range(20 if big else 4):
         yield scenario_reorder(rng)
+    for _ in range(40 if big else 8):
+        yield scenario_alias_cycle(rng)
     for i in range(3500 if big else 700):
         fl = ("pt", "pt", "mixed", "mixed", "wild")[i % 5]
         yield gen_hist(rng, tier, fl)
@@ -409,7 +436,9 @@ def _run_hist(case):
             r = extra[0]
         return b"%032d" % r
 
-    results = []  # NameID observables of issuing steps (or None)
+    results = []  # per step: the NameID answered (fields as observed when it was handed out), or None
+    handles = []  # per step: the very object the real code returned (first one of a list), or None
+    events = []  # every object handed out: {"obj", "snap", "step"}; checked for mutation after each step
     steps = []
     watch = []
     snaps = []
@@ -417,32 +446,52 @@ def _run_hist(case):
     authn_snap = {}
     saved = ident_mod.rndbytes
     ident_mod.rndbytes = fake_rnd
+
+    def hand_out(obj, step):
+        for ev in events:
+            if ev["obj"] is obj:
+                return
+        events.append({"obj": obj, "snap": _obs_nid(obj), "step": step})
+
     try:
         for i, o in enumerate(case["ops"]):
             k = o["k"]
             del cands[:]
             stream[:] = list(o.get("rnd", []))
             arg = None
+            argobj = None
             if "ref" in o or "n" in o:
                 if "n" in o:
                     arg = dict(o["n"])
                 else:
-                    base = results[o["ref"]] if o["ref"] < len(results) else None
-                    arg = dict(base) if base else {"nq": None, "spq": None, "fmt": None, "spid": None, "text": "unresolved-%d" % o["ref"]}
-                    arg.update(o.get("set", {}))
+                    j = o["ref"]
+                    base = results[j] if j < len(results) else None
+                    if o.get("alias") and "set" not in o and j < len(handles) and handles[j] is not None:
+                        argobj = handles[j]  # aliasing: the caller passes the object it was given
+                        arg = _obs_nid(argobj)  # ... with whatever it holds NOW
+                    else:
+                        arg = dict(base) if base else {"nq": None, "spq": None, "fmt": None, "spid": None,
+                                                       "text": "unresolved-%d" % j}
+                        arg.update(o.get("set", {}))
+                if argobj is None:
+                    argobj = _mk_nid(arg)
+            handle = None
             res_nid = None
             try:
                 if k == "persistent":
                     r = idb.persistent_nameid(o["u"], sp_name_qualifier=o["spq"], name_qualifier=o["nq"])
                     res_nid = _obs_nid(r)
+                    handle = r
                     res = {"r": "nid", "n": res_nid}
                 elif k == "transient":
                     r = idb.transient_nameid(o["u"], sp_name_qualifier=o["spq"], name_qualifier=o["nq"])
                     res_nid = _obs_nid(r)
+                    handle = r
                     res = {"r": "nid", "n": res_nid}
                 elif k == "get_nameid":
                     r = idb.get_nameid(o["u"], o["fmt"], o["spq"], o["nq"])
                     res_nid = _obs_nid(r)
+                    handle = r
                     res = {"r": "nid", "n": res_nid}
                 elif k == "construct":
                     lp = Policy({"default": {"nameid_format": o["local_fmt"]}}) if o["local_fmt"] is not None else None
@@ -450,42 +499,51 @@ def _run_hist(case):
                     nip = samlp.NameIDPolicy(format=p["fmt"], sp_name_qualifier=p["spq"], allow_create=p["allow_create"]) if p else None
                     r = idb.construct_nameid(o["u"], lp, o["spq"], nip, o["nq"])
                     res_nid = _obs_nid(r)
+                    handle = r
                     res = {"r": "nid", "n": res_nid}
                 elif k == "find_nameid":
                     kw = {ATTRS[j]: v for j, v in o["flt"]}
-                    res = {"r": "nids", "l": [_obs_nid(x) for x in idb.find_nameid(o["u"], **kw)]}
+                    found = idb.find_nameid(o["u"], **kw)
+                    res = {"r": "nids", "l": [_obs_nid(x) for x in found]}
+                    for x in found:
+                        hand_out(x, i)
+                    if found:
+                        handle, res_nid = found[0], _obs_nid(found[0])
                 elif k == "find_local_id":
-                    res = {"r": "user", "u": idb.find_local_id(_mk_nid(arg))}
+                    res = {"r": "user", "u": idb.find_local_id(argobj)}
                 elif k == "mapping":
                     p = o["pol"]
                     nip = samlp.NameIDPolicy(format=p["fmt"], sp_name_qualifier=p["spq"], allow_create=p["allow_create"])
-                    r = idb.handle_name_id_mapping_request(_mk_nid(arg), nip)
+                    r = idb.handle_name_id_mapping_request(argobj, nip)
                     res_nid = _obs_nid(r)
+                    handle = r
                     res = {"r": "nid", "n": res_nid}
                 elif k == "manage":
                     m = o["m"]
                     r = idb.handle_manage_name_id_request(
-                        _mk_nid(arg),
+                        argobj,
                         new_id=samlp.NewID(text=o["new_text"]) if m == "new_id" else None,
                         new_encrypted_id="encrypted" if m == "new_encrypted" else "",
                         terminate=samlp.Terminate() if m == "terminate" else "")
-                    res = {"r": "nid", "n": _obs_nid(r)}
+                    res_nid = _obs_nid(r)
+                    handle = r  # on the unchanged tree the very object that was passed in, modified in place
+                    res = {"r": "nid", "n": res_nid}
                 elif k == "remove_remote":
-                    idb.remove_remote(_mk_nid(arg))
+                    idb.remove_remote(argobj)
                     res = {"r": "done"}
                 elif k == "remove_local":
                     idb.remove_local(o["u"])
                     res = {"r": "done"}
                 elif k == "store_authn":
-                    a = saml.Assertion(id="a%d" % i, subject=saml.Subject(name_id=_mk_nid(arg)),
+                    a = saml.Assertion(id="a%d" % i, subject=saml.Subject(name_id=argobj),
                                        authn_statement=[saml.AuthnStatement(session_index="s%d" % i)])
                     sdb.store_assertion(a, [])
                     watch.append(dict(arg))
                     res = {"r": "done"}
                 elif k == "authn_count":
-                    res = {"r": "count", "c": len(sdb.get_authn_statements(_mk_nid(arg)))}
+                    res = {"r": "count", "c": len(sdb.get_authn_statements(argobj))}
                 elif k == "clean_out":
-                    res = {"r": "user", "u": Server.clean_out_user(stub, _mk_nid(arg))}
+                    res = {"r": "user", "u": Server.clean_out_user(stub, argobj)}
                 else:
                     raise AssertionError("unknown op kind " + k)
             except legit as e:
@@ -496,7 +554,19 @@ def _run_hist(case):
                 steps.append({"res": {"r": "crash", "e": type(e).__name__}, "cands": list(cands), "delta": [], "crash": True})
                 snaps.append(authn_snap)
                 break
-            results.append(res_nid if k in ISSUE else None)
+            # objects handed out earlier must not change behind the caller's back; the one contract that
+            # says otherwise: handle_manage_name_id_request modifies the NameID it is given, in place
+            mutated = []
+            for ev in events:
+                cur = _obs_nid(ev["obj"])
+                if cur != ev["snap"]:
+                    if not (k == "manage" and ev["obj"] is argobj):
+                        mutated.append({"from_step": ev["step"], "was": ev["snap"], "now": cur})
+                    ev["snap"] = cur
+            if handle is not None:
+                hand_out(handle, i)
+            results.append(res_nid)
+            handles.append(handle)
             if not all(isinstance(a, str) and isinstance(b, str) for a, b in db.items()):
                 # the store no longer maps strings to strings (e.g. a None key): outside anything the
                 # property or the model can talk about; the history ends here and the driver reports it
@@ -510,7 +580,7 @@ def _run_hist(case):
             if k in ("store_authn", "clean_out"):
                 authn_snap = {kk: len(v) for kk, v in sdb.authn.items()}
             snaps.append(authn_snap)
-            st = {"res": res, "cands": list(cands), "delta": delta}
+            st = {"res": res, "cands": list(cands), "delta": delta, "mutated": mutated}
             if arg is not None:
                 st["arg"] = arg
             steps.append(st)
@@ -549,6 +619,8 @@ def compare(case, impl, model):
         if {k: v for k, v in a["delta"]} != {k: v for k, v in b["delta"]}:
             return False
         if a["counts"] != b["counts"]:
+            return False
+        if a.get("mutated"):  # the model is value-based: nothing changes behind the caller's back
             return False
     return True
 
